@@ -776,6 +776,15 @@ func buildHandlers() map[string]handler {
 		if x.IsConst() && y.IsConst() {
 			return KF(math.Pow(x.F, y.F), SF64)
 		}
+		// small integer exponents of a constant base are computed exactly (case split)
+		if x.IsConst() && (y.Op == OU2F || y.Op == OI2F) {
+			p := y.Args[0]
+			for k := int64(0); k <= 4; k++ {
+				if e.decide(Eq(p, K(k))) {
+					return KF(math.Pow(x.F, float64(k)), SF64)
+				}
+			}
+		}
 		// uninterpreted: equal arguments give equal results; for a positive base the result is a
 		// positive number (possibly +Inf or 0 by overflow/underflow), never NaN
 		for _, p := range e.powMemo {
